@@ -194,7 +194,13 @@ func TestBounded(t *testing.T) {
 		names = vp.Dedup(names)
 		ents := make([]dagpb.PBLink, len(names))
 		for i, n := range names {
-			c, _ := vp.V1Raw.Prefix.Sum([]byte(n))
+			// targets hashed with different functions (every third one sha2-512): the directory's own
+			// link must not depend on which of them comes first
+			pfx := vp.V1Raw.Prefix
+			if i%3 == 1 {
+				pfx.MhType, pfx.MhLength = 0x13, 64
+			}
+			c, _ := pfx.Sum([]byte(n))
 			ents[i], _ = builder.BuildUnixFSDirectoryEntry(n, int64(i*13+1), cidlink.Link{Cid: c})
 		}
 		type variant struct {
